@@ -68,6 +68,11 @@ def World.addHeld (w : World) (c i : Nat) : World :=
 def World.subHeld (w : World) (c i : Nat) : World :=
   { w with held := w.held.set! c ((w.held[c]!).set! i ((w.held[c]!)[i]! - 1)) }
 
+/-- `DecRef` as issued by a caller that believes it pinned: owned if the thread really owns a
+reference, stray otherwise (only possible for legacy callers) -/
+def World.decRefAny (w : World) (t : Tid) (i : Nat) : World :=
+  if (w.th i t).holds > 0 then w.call i t .decRef else w.call i t .decRefStray
+
 /-- run thread `t` of state `s` until it is idle again or blocked on the mutex -/
 def runT (s : State) (t : Tid) (ok : Bool) : Nat → State
   | 0 => s
@@ -109,15 +114,13 @@ def World.incRef (w : World) (t : Tid) (i : Nat) : World × Bool :=
     let w := if fired then
         { w with hookD := none, hookRes := w.hookRes ++ "+D:done", listed := w.listed.set! i false }
       else w
-    (w, (w.th i t).res == .ok)
+    let okRes := (w.th i t).res == .ok
+    -- as written, the racing `deleteExpiredSegments` ends with `s.DecRef()` on a segment it never pinned
+    let w := if fired && w.legacy then w.decRefAny sys2 i else w
+    (w, okRes)
   else
     let w := w.call i t .incRef
     (w, (w.th i t).res == .ok)
-
-/-- `DecRef` as issued by a caller that believes it pinned: owned if the thread really owns a
-reference, stray otherwise (only possible for legacy callers) -/
-def World.decRefAny (w : World) (t : Tid) (i : Nat) : World :=
-  if (w.th i t).holds > 0 then w.call i t .decRef else w.call i t .decRefStray
 
 /-- run thread `t` of segment `i` through procedure `p`, firing the armed hook (another thread's
 incRef on another segment) right after the step that closes open resources – the moment the real
